@@ -496,5 +496,9 @@ func c17RaceGen(g *G) {
 				g.Emit(fmt.Sprintf("c17.race %s none %d %d", c, procs, 300), "race-migrate-and-close")
 			}
 		}
+		// every goroutine of the client held at one of the yield points of the request path
+		for i, h := range []string{"read:200", "write:200", "recv:process:200", "call:sent:200", "write:50", "read:1000"} {
+			g.Emit(fmt.Sprintf("c17.race %s %s %d 150", []string{"fin", "rst"}[i%2], h, []int{2, 1, 16}[i%3]), "race-migrate-held")
+		}
 	}
 }
